@@ -23,6 +23,9 @@ checks = {
  "C04": ("model_checking", "bounded-exhaustive product of built events x room versions x every single and pair of tamperings, parsed as untrusted input on the real code with interleaved genuine/tampered histories, against a reference content hash and reference redaction",
          "Every (event, tampering set) of the alphabet is parsed by the real NewEventFromUntrustedJSON; the verdict redacted/intact, the surfaced JSON and every accessor are compared with refevent/refredact; genuine and tampered copies alternate in one process so state carried between parses is exercised.",
          "sha256/ed25519 trusted; static verifier for signature verdicts; room version 8's specified redaction gap (join_authorised_via_users_server) is not judged", "4/C04"),
+ "C06": ("fault_enumeration", "exhaustive product of event shapes x room versions x per-server signature/key fault states (all singles and pairs over 5 servers) x clock positions, through the real VerifyEventSignatures + KeyRing over a scripted key database under a virtual clock, against the reference required-signer set and key-validity rule",
+         "Every assignment of fault states with at most two non-valid servers is executed on the real verification path; the verdict must equal 'every required server has a signature valid at origin_server_ts'.",
+         "ed25519 trusted; pseudo-ID room version (mxid_mapping) not covered here", "4/C06"),
 }
 pending = {}
 props = [json.loads(l) for l in open('/verif/properties.jsonl')]
